@@ -91,6 +91,10 @@ DEFAULT = {
     'pbm': [1e-10, 1e-8, 75, 50, 100], 'adaptive': True, 'it': 'euler', 'temp': 'iso', 'precdiff': 'inf',
     'split': 1, 'preload': False, 'tf': 200.0, 'x0': None, 'record': True, 'constraints': {}, 'solve': {},
     'faults': None, 'gbe': 0.1, 'max_steps': 4000, 'phase_order': None, 'parents': False,
+    'apc': [4, 4],          # atoms per unit cell of matrix / precipitates
+    'voltype': 'VM',        # how the volumes are handed to kawin: molar volume, atomic (cell) volume or lattice parameter
+    'minRadius': None,      # constraints.minRadius (None = kawin's default 3e-10)
+    'Rmin': None,           # precipitateParameters[p].Rmin (None = default 3e-10)
 }
 
 
@@ -148,14 +152,27 @@ def build_model(cfg, therm=None, names=None, elements=None):
         m.setTemperature(tv[0], tv[1])
     else:
         m.setTemperature(tv)
-    m.setVolumeAlpha(VMA, VolumeParameter.MOLAR_VOLUME, 4)
+    NA = 6.02214076e23
+
+    def volume_args(vm, apc):
+        # the same molar volume expressed the way the configuration asks for (kawin converts back)
+        if c['voltype'] == 'VM':
+            return vm, VolumeParameter.MOLAR_VOLUME, apc
+        va = vm * apc / NA
+        if c['voltype'] == 'VA':
+            return va, VolumeParameter.ATOMIC_VOLUME, apc
+        return va ** (1.0 / 3.0), VolumeParameter.LATTICE_PARAMETER, apc
+    m.setVolumeAlpha(*volume_args(VMA, c['apc'][0]))
     m.setNucleationDensity(grainSize=1, dislocationDensity=1e15)
     m.setGrainBoundaryEnergy(c['gbe'])
     sites = c['site'] if isinstance(c['site'], list) else [c['site']] * len(names)
     for i, nme in enumerate(names):
         gm, vmm = PHASE_PARAMS.get(nme, (1.0, 1.0))
         m.setInterfacialEnergy(c['gamma'] * gm, phase=nme)
-        m.setVolumeBeta(VMA * c['vm'] * vmm, VolumeParameter.MOLAR_VOLUME, 4, phase=nme)
+        vb, vt, va_ = volume_args(VMA * c['vm'] * vmm, c['apc'][1])
+        m.setVolumeBeta(vb, vt, va_, phase=nme)
+        if c['Rmin'] is not None:
+            m.precipitateParameters[i].Rmin = c['Rmin']
         if c['shape'] != 'sphere' and sites[i] in ('bulk', 'dislocations'):
             m.setPrecipitateShape(c['shape'], phase=nme, ratio=c['ratio'])
         m.setNucleationSite(sites[i], phase=nme)
@@ -164,6 +181,8 @@ def build_model(cfg, therm=None, names=None, elements=None):
         m.setParentPhases(names[1], [names[0]])
     if c['constraints']:
         m.setConstraints(**c['constraints'])
+    if c['minRadius'] is not None:
+        m.setConstraints(minRadius=c['minRadius'])
     m.setThermodynamics(therm)
     if c['record']:
         m.setPSDrecording(True, 'all')
@@ -205,6 +224,7 @@ class Monitor:
                     'bounds': [np.array(p.PSDbounds, copy=True) for p in model.PBM],
                     'xbeta': [None if b is None else np.array(b, dtype=float, copy=True) for b in model.PSDXbeta],
                     'prev': [np.array(p.PSD, dtype=float, copy=True) for p in model.PBM],
+                    'rdf': np.array(model.RdrivingForceIndex, copy=True),
                 }
                 return orig_mb(t, x, Y)
 
@@ -226,6 +246,7 @@ class Monitor:
             'bounds': [np.array(p.PSDbounds, copy=True) for p in model.PBM],
             'bins': [p.bins for p in model.PBM],
             'growth': [None if g is None else np.array(g, dtype=float, copy=True) for g in growth],
+            'rdf': np.array(getattr(model, 'RdrivingForceIndex', np.zeros(len(model.PBM), dtype=int)), copy=True),
         }
 
     def updateCoupledModel(self, model):
